@@ -32,6 +32,10 @@ func c13Setup() *c13World {
 	w := &c13World{}
 	w.fetch = config.CRLFetchMode(verifrt.Choose(2))
 	w.strict = verifrt.Choose(2) == 1
+	if verifrt.Param("trusted", 0) == 1 {
+		// a configured trusted CRL signer (unrelated to the lists in play): state every handshake shares
+		trustedForNext = []*x509.Certificate{{}}
+	}
 	w.c = newChecker(verifrt.Param("disk", 0) == 1, w.fetch, w.strict, config.SignatureValidationModeVerify)
 	c := w.c
 	s1, probe := sym("s1"), sym("probe")
